@@ -136,12 +136,20 @@ RTWellFormed(m) ==
 SameClass(pre, post)    == pre.cls = post.cls /\ pre.kind = post.kind
 \* vertex coordinates and vertex rows of t exactly as written
 SameVertices(pre, post) == pre.nv = post.nv /\ SubSeq(pre.p, 1, pre.nv) = SubSeq(post.p, 1, post.nv)
-SameCells(pre, post)    == pre.t = post.t
+\* the cell list as written; a triangle whose stored local vertex order is not ascending comes back in MeshTri1's own
+\* (ascending) order - the same cell, the class is defined up to that sorting
+IsAscending(q) == \A i \in 1..(Len(q) - 1) : q[i] < q[i + 1]
+Resorted(pre, k) == pre.kind = "tri" /\ ~IsAscending(pre.t[k])
+SameCells(pre, post)    == /\ Len(pre.t) = Len(post.t)
+                           /\ \A k \in DOMAIN pre.t : IF Resorted(pre, k) THEN VSet(pre.t[k]) = VSet(post.t[k])
+                                                      ELSE pre.t[k] = post.t[k]
 \* every node of every cell sits where it sat (a consistent renumbering of the higher-order nodes is not judged)
 NodesPerCell(pre, post) == /\ Len(pre.tt) = Len(post.tt)
                            /\ \A k \in DOMAIN pre.tt :
                                 /\ Len(pre.tt[k]) = Len(post.tt[k])
-                                /\ \A i \in DOMAIN pre.tt[k] : pre.p[pre.tt[k][i]] = post.p[post.tt[k][i]]
+                                /\ IF Resorted(pre, k)
+                                   THEN {pre.p[pre.tt[k][i]] : i \in DOMAIN pre.tt[k]} = {post.p[post.tt[k][i]] : i \in DOMAIN post.tt[k]}
+                                   ELSE \A i \in DOMAIN pre.tt[k] : pre.p[pre.tt[k][i]] = post.p[post.tt[k][i]]
 NoNodeInvented(pre, post) == Len(pre.p) = Len(post.p)
 
 RoundTripClauses(pre, post) ==
